@@ -379,6 +379,25 @@ def check_pair_cases(ctx, out, cases, kind_for_model="corr"):
     rep = {}
     for (idx, algo, _), r in zip(flat, replies):
         rep[(idx, algo)] = r
+    # tie of the model's path -> gapped rows function (rowsOfPath = as_bin_pos_tuples + seq_traceback; the function the
+    # rows_* / *_alignment_sound theorems speak about): the implementation's own traceback steps must give the implementation's rows
+    rflat = []
+    for idx, case in enumerate(cases):
+        for algo, r in prepared[idx][0].items():
+            if "exc" in r or r.get("tb") is None or "bad_hmm" in r:
+                continue
+            sd = sorted(r["hmm"]["sd"])
+            rflat.append((idx, algo, ("rows", dict(dirs=[[bool(dx), bool(dy)] for _, _, dx, dy in sd], s1=case["s1"].upper(),
+                                                   s2=case["s2"].upper(), path=[list(t) for t in r["tb"]]))))
+    for (idx, algo, (_, rq)), got in zip(rflat, ctx.driver.batch([rq for _, _, rq in rflat]) if rflat else []):
+        real_rows = prepared[idx][0][algo]["rows"]
+        out["evaluations"] += 1
+        if got != real_rows:
+            bump(out, "rows_model_vs_impl", "differs")
+            add_failure(out, "corr", "rowsOfPath(model) on the implementation's traceback differs from the implementation's rows",
+                        dict(s1=rq["s1"], s2=rq["s2"], path=rq["path"], algo=algo, local=cases[idx]["local"]), real_rows, got, confirmed=False)
+        else:
+            bump(out, "rows_model_vs_impl", "same")
     for idx, case in enumerate(cases):
         runs, reqs = prepared[idx]
         local = case["local"]
